@@ -13,6 +13,10 @@ CLAIMED = {
   text="Lean 4 theorems over definitions REGENERATED from rpc.go on every run (Gen.Backoff: start value, growth formula, shape of the wait; Gen.RetryLoop: what each error class does in SendRPC/SendBatch/lookup/establish loops): schedule_exact (16 ms … 8.192 s, 13.192 … 33.192 s, constant), monotone, bounded; for ALL outcome sequences the waits of a call are an initial segment of the schedule, a retry-later answer is always followed by a wait, connection-level failures are retried immediately at most twice (single and batched), lookups and region re-establishment back off on the same schedule; the wait has exactly two exits (timer, context). Correspondence: the real sleepAndIncreaseBackoff along the schedule with live, cancelled and expiring contexts.",
   note="Trusted: Lean kernel; tools/extract (a wrong translation would be caught only where the real function is run: values up to 1.1 s quick / whole schedule thorough). Partial: upper bounds on waits are wall-clock; the loop models are tied to the Go loops through the regenerated per-class facts, not executed step by step.",
   tech="Lean 4 proof over a regenerated model (closed-form schedule + induction over outcome sequences) + differential correspondence"),
+ "C10": dict(
+  text="Lean 4 theorems: decode_encode / kvDecode_encode (the client's decoder and an independent KeyValue parser both recover exactly (row, family, qualifier, timestamp, type, value) and the bytes consumed, for all rows < 2^16, families < 2^8, any qualifier/value, all 64-bit timestamps, any trailing bytes), stream_roundtrip, encodings_agree (for every mutation kind, all four delete variants, timestamp set/unset, every map shape including nil/empty inner maps and EVERY iteration order of the Go maps, the cellblock form and the protobuf form denote the same multiset of cells; the panic in valuesToCellblocks is unreachable), count_eq_cells. Type codes and the length formula are regenerated from the source (Gen.Cell). Correspondence: real appendCellblock / cellFromCellBlock / valuesToCellblocks / valuesToProto vs the model and the independent decoder, exhaustive over boundary lengths and map shapes + seeded random.",
+  note="Trusted: Lean kernel; tools/extract for Gen.Cell; the reading of the protobuf form as cells follows HBase's ProtobufUtil and is not checked against HBase; slices modelled with cap = len; allocation of wire-declared sizes not modelled.",
+  tech="Lean 4 proof (round-trip laws, agreement of two encodings for all map orders) + differential correspondence with an independent decoder"),
 }
 
 PENDING = "check not integrated yet (work in progress; see DESIGN.md build order)"
